@@ -238,7 +238,7 @@ def harnesses(tier, seed):
         gk = ctx.choose(["uniform", "gaps"], "grid")
         n = ctx.choose([2, 12] if quick else [2, 5, 12, 32], "n")
         p = RC.pkey(psets(st, n)[0])
-        for m in lsizes:
+        for m in [ctx.choose(lsizes, "len")]:
             if m * n > (5000 if quick else 40000):
                 continue
             js = A.interesting_indices(m - 1, dense_to=12, limit=10)
